@@ -257,11 +257,14 @@ func (fc *FuncCtx) AP(v ssa.Value) string {
 	s := fc.ap0(v)
 	delete(fc.apBusy, v)
 	// fields of a parameter object that a rule has named by their role (see AliasSlots)
-	for from, to := range fc.alias {
-		if s == from {
-			s = to
-		} else if strings.HasPrefix(s, from+"[") || strings.HasPrefix(s, from+".") {
-			s = to + s[len(from):]
+	// (a callee analysed as part of the function sees the object through its caller's names)
+	for c := fc; c != nil; c = c.parent {
+		for from, to := range c.alias {
+			if s == from {
+				s = to
+			} else if strings.HasPrefix(s, from+"[") || strings.HasPrefix(s, from+".") {
+				s = to + s[len(from):]
+			}
 		}
 	}
 	fc.apMemo[v] = s
@@ -276,19 +279,26 @@ func (fc *FuncCtx) AliasSlots(names map[string]string) {
 		slot, ok := slotOf(fc.Fn, func(t types.Type) bool {
 			return types.TypeString(t, func(pk *types.Package) string { return pk.Name() }) == ts
 		})
-		if !ok || slot.Field < 0 {
-			continue
-		}
-		v := slotValueIn(fc.Fn, slot)
-		if v == nil {
+		if !ok || slot.isParam() {
 			continue
 		}
 		if fc.alias == nil {
 			fc.alias = map[string]string{}
 		}
-		delete(fc.apMemo, v)
-		from := fc.ap0(v)
+		// the access path of the field, whether or not this function reads it itself (it may only hand the object on)
+		from := fc.rootName(fc.Fn.Params[slot.Param])
+		t := fc.Fn.Params[slot.Param].Type()
+		for _, k := range slot.Path {
+			from += "." + fieldName(t, k)
+			if st, ok := derefType(t).Underlying().(*types.Struct); ok && k < st.NumFields() {
+				t = st.Field(k).Type()
+			}
+		}
 		fc.alias[from] = name
+		if v := slotValueIn(fc.Fn, slot); v != nil {
+			delete(fc.apMemo, v)
+			fc.alias[fc.ap0(v)] = name
+		}
 	}
 }
 
@@ -356,6 +366,18 @@ func (fc *FuncCtx) ap0(v ssa.Value) string {
 				}
 				if ap := fc.pureResultAP(c, idx); ap != "" {
 					return ap
+				}
+				if ap := fc.structResultAP(c, idx); ap != "" {
+					return ap
+				}
+			}
+			// a field of a local struct that is assigned once: named by the assigned value
+			if sv := fieldSingleStore(x); sv != nil {
+				switch sv.(type) {
+				case *ssa.Call, *ssa.Extract:
+					// (the outcome of a call kept in a field: check.err = validate(..); a container made in place
+					// keeps its field name)
+					return fc.AP(sv)
 				}
 			}
 			if al, ok := x.X.(*ssa.Alloc); ok {
@@ -1112,4 +1134,36 @@ func componentType(fn *ssa.Function, idx int) types.Type {
 		return nil
 	}
 	return st.Field(-idx - 1).Type()
+}
+
+// structResultAP: field idx (convention of retAlts) of the result struct of a helper that is analysed as part of its
+// caller: when every return puts the same value there (or leaves it zero: "X or nothing" is named X), that value's access
+// path in the helper's context.
+func (fc *FuncCtx) structResultAP(c *ssa.Call, idx int) string {
+	sc := c.Call.StaticCallee()
+	if sc == nil || fc.depth >= fc.A.MaxDepth || len(sc.Blocks) == 0 {
+		return ""
+	}
+	if !(fc.A.Inline != nil && fc.A.Inline(sc)) && !fc.A.isPureModuleFunc(sc) {
+		return ""
+	}
+	sub := fc.inlineCtx(sc, c.Call.Args, c)
+	ap := ""
+	for _, ret := range sub.Returns() {
+		alts := retAlts(ret, idx)
+		if len(alts) == 0 {
+			return ""
+		}
+		for _, alt := range alts {
+			if k, ok := alt.v.(*ssa.Const); ok && (k.Value == nil || isZeroConst(k)) {
+				continue
+			}
+			s := sub.AP(alt.v)
+			if ap != "" && s != ap {
+				return ""
+			}
+			ap = s
+		}
+	}
+	return ap
 }
